@@ -76,3 +76,36 @@ def unguarded_between(body, a_bb, b_bb, allowed_guard=None):
       continue
     out.append(g)
   return out
+
+
+def always_before(body, b_bb, a_bb, allowed_guard=None):
+  """True iff on every path from the entry to A, B has been performed — where the skip edges of allowed guards of B
+  count as having performed B."""
+  if b_bb == a_bb or body.dominates(b_bb, a_bb):
+    return True
+  banned = set()
+  if allowed_guard is not None:
+    for g in guards_of(body, b_bb):
+      if allowed_guard(g):
+        for lab, tgt in body.switch_edges(g.bb):
+          if lab in g.dead:
+            banned.add((g.bb, tgt))
+  seen = {0}
+  work = [0]
+  while work:
+    x = work.pop()
+    if x == a_bb:
+      return False
+    if x == b_bb:
+      continue
+    for s in body.succ(x):
+      if (x, s) in banned or s in seen:
+        continue
+      seen.add(s)
+      work.append(s)
+  return True
+
+
+def paired(body, a_bb, b_bb, allowed_guard=None, escape_at=()):
+  """B accompanies A on every path: after it (always_with) or before it (always_before)"""
+  return always_with(body, a_bb, b_bb, allowed_guard=allowed_guard, escape_at=escape_at) or always_before(body, b_bb, a_bb, allowed_guard=allowed_guard)
